@@ -1276,7 +1276,9 @@ impl<'p> Machine<'p> {
                 st.flag = true;
                 st.src.push(e);
             }
-            Op::Send { c, v } => {
+            // (a message that is received, or drained by the receiver's drop together with what its
+            // destructor sends, leaves nothing behind: the same as a plain send)
+            Op::Send { c, v } | Op::SendBomb { c, v } => {
                 let e = self.push_ev(t, pc, EK::Sync, NOLOC, MO::Rlx);
                 let st = &mut self.chan[c as usize];
                 if st.rx_alive {
